@@ -113,6 +113,9 @@ struct Sched {
   uint32_t param = 8;          // sticky: 1/param switch probability; starve: class bitmask; pct: depth
   uint32_t spurious = 0;       // 1/spurious chance per decision of a spurious cond wake-up (0 = never)
   uint32_t preempt = 0;        // "preempt" variant only: mean number of instrumented memory accesses between preemption points inside unsynchronised code (0 = none)
+  std::string stall_task;      // "slow node" fault: the stall_k-th time any worker begins the task of this name, that thread is not scheduled
+  uint32_t stall_k = 0;        // for the next stall_len decisions unless nothing else can run (0 = no stall); it holds its job meanwhile
+  uint32_t stall_len = 0;
   bool explicit_ = false;      // true: ignore policy, use devs over the default policy
   std::vector<std::pair<uint32_t, uint32_t>> devs;   // (choice index, value) deviations from default
 };
@@ -153,6 +156,7 @@ struct Result {
   uint64_t hash = 0;            // full history hash
   uint64_t ihash = 0;           // hash of (class, op) projection of the schedule
   uint64_t preemptions = 0;     // decisions that switched away from an enabled current fiber
+  uint32_t stalls_fired = 0;    // stall faults that took effect
   uint64_t inregion_points = 0, inregion_preemptions = 0;   // "preempt" variant: decision points offered inside unsynchronised code / those that switched threads
   unsigned max_live_fibers = 0;
   size_t peak_heap = 0, final_heap = 0;
